@@ -236,20 +236,36 @@ package types
 // Routing is by the controller's own identifier (C05): the identifier a controller reports when it is registered
 // is recorded (ghost route_id), so that the router can be required to file it under exactly that key.
 // ---------------------------------------------------------------------------------------------
+//@ macro isCCTPCtl(x) = istype(x, "*controller/forwarding.CCTPController") && cast(x, "*controller/forwarding.CCTPController") != nil && cast(x, "*controller/forwarding.CCTPController").BaseController != nil
+//@ macro isHypCtl(x) = istype(x, "*controller/forwarding.HyperlaneController") && cast(x, "*controller/forwarding.HyperlaneController") != nil && cast(x, "*controller/forwarding.HyperlaneController").BaseController != nil
+//@ macro isIntCtl(x) = istype(x, "*controller/forwarding.InternalController") && cast(x, "*controller/forwarding.InternalController") != nil && cast(x, "*controller/forwarding.InternalController").BaseController != nil
+//@ macro isFeeCtl(x) = istype(x, "*controller/action.FeeController") && cast(x, "*controller/action.FeeController") != nil && cast(x, "*controller/action.FeeController").BaseController != nil
 //@ macro isIBCAdapter(x) = istype(x, "*controller/adapter.IBCAdapter") && cast(x, "*controller/adapter.IBCAdapter") != nil && cast(x, "*controller/adapter.IBCAdapter").BaseController != nil
 //@ func (self ForwardingController) ID() (r)
 //@   sets-post route_id = r
 //@   modifies route_id
 //@   ensures[C05] isIBCAdapter(self) ==> r == cast(self, "*controller/adapter.IBCAdapter").BaseController.id
+//@   ensures[C05] isCCTPCtl(self) ==> r == cast(self, "*controller/forwarding.CCTPController").BaseController.id
+//@   ensures[C05] isHypCtl(self) ==> r == cast(self, "*controller/forwarding.HyperlaneController").BaseController.id
+//@   ensures[C05] isIntCtl(self) ==> r == cast(self, "*controller/forwarding.InternalController").BaseController.id
+//@   ensures[C05] isFeeCtl(self) ==> r == cast(self, "*controller/action.FeeController").BaseController.id
 //@ func (self ActionController) ID() (r)
 //@   sets-post route_id = r
 //@   modifies route_id
 //@   ensures[C05] isIBCAdapter(self) ==> r == cast(self, "*controller/adapter.IBCAdapter").BaseController.id
+//@   ensures[C05] isCCTPCtl(self) ==> r == cast(self, "*controller/forwarding.CCTPController").BaseController.id
+//@   ensures[C05] isHypCtl(self) ==> r == cast(self, "*controller/forwarding.HyperlaneController").BaseController.id
+//@   ensures[C05] isIntCtl(self) ==> r == cast(self, "*controller/forwarding.InternalController").BaseController.id
+//@   ensures[C05] isFeeCtl(self) ==> r == cast(self, "*controller/action.FeeController").BaseController.id
 //   the identifier the IBC adapter reports is the one it was built with
 //@ func (self AdapterController) ID() (r)
 //@   sets-post route_id = r
 //@   modifies route_id
 //@   ensures[C05] isIBCAdapter(self) ==> r == cast(self, "*controller/adapter.IBCAdapter").BaseController.id
+//@   ensures[C05] isCCTPCtl(self) ==> r == cast(self, "*controller/forwarding.CCTPController").BaseController.id
+//@   ensures[C05] isHypCtl(self) ==> r == cast(self, "*controller/forwarding.HyperlaneController").BaseController.id
+//@   ensures[C05] isIntCtl(self) ==> r == cast(self, "*controller/forwarding.InternalController").BaseController.id
+//@   ensures[C05] isFeeCtl(self) ==> r == cast(self, "*controller/action.FeeController").BaseController.id
 
 // The default module genesis (C17, C18): accepted by validation - so a chain started from it initialises -
 // with the zero passthrough limit and nothing paused.
